@@ -155,7 +155,9 @@ def encs(detector, ident=0, slots="", a=0.0, b=0.0, c=0.0, d=0.0, sleep_scale=0.
         if not item:
             continue
         name, slot = item.split(":")
-        code, t = encode([got[name]])
+        # "T": not an argument of this model but a setting of the detector (swept with a 'detector.*' key)
+        value = detector.environment.temperature if name == "T" else got[name]
+        code, t = encode([value])
         total += t
         pix[:, int(slot)] = float(code)
         sig[:, int(slot)] = float(mem)
